@@ -42,10 +42,12 @@ def main():
         "setup_cmd": "./build --cfg plain",
         "hooks": {
             "guard": "HGRAPH_VERIF",
-            "enable": "compile definition -DHGRAPH_VERIF=1 passed by /verif/vlib/vbuild.py to every TU (currently guards nothing: "
-                      "all observation goes through public API, lifecycle observers and symbol interposition)",
+            "enable": "compile definition -DHGRAPH_VERIF=1 passed by /verif/vlib/vbuild.py to every TU. It guards one hook: the real-time "
+                      "executor's lock-free stop flag (src/hgraph/runtime/executor.cpp) yields to hgraph_verif_point() after each load and "
+                      "store; only the controlled-scheduler harnesses (C16, C17, C07) define that function, elsewhere the weak symbol is null. "
+                      "All other observation goes through public API, lifecycle observers and symbol interposition.",
             "baseline_off_cmd": BASELINE,
-            "source_commits": [],
+            "source_commits": ["a8ec784"],
             "add_only": True,
         },
         "engines": list(engines.values()),
